@@ -37,6 +37,9 @@ CLAIMS = {
  "C01": dict(cat="model_checking", ref="3 (C01)", technique="TLA+ writer/reader protocol T2DataFile.tla (23 section kinds by shape, keyword dispatch, counted and sentinel-terminated lists, PARAM's continuation/hand-back rule, end keyword) model-checked by TLC over every legal order of small documents and over harness-composed full documents; each document built through the public API, written with a record-level trace, read, written, read, written by the real t2data, with MESH / MESHA+MESHB / .pdat variants and the shipped files",
    text="TLC checks on the protocol model that the reader inverts the writer for every legal order of sections (within bounds) and both end keywords, that no record is misread or left over, and that the pinned PARAM continuation rule does not (negative configuration); well-formedness conditions (SIMUL before PARAM/MULTI, MULTI before DIFFU, rocks before blocks before connections before short/history sections) are part of the model. Documents (all legal orders of the always-present sections plus one optional section; random full-size documents with table generators 1..12 times, 0..12 default initial conditions, lengths on both sides of the 4/8-per-line boundaries, every section kind) are instantiated and cycled three times through the real code: content compared through a canonical form, second file equal to the first up to trailing blanks, third byte-identical; also with the mesh in a MESH file, in MESHA+MESHB and with extra precision on / echoed / partial; shipped files cycled as well.",
    note="Values are exactly representable in their fields (C02 covers widths); INCON/INDOM entries hold at most 4 values; the per-section readers are modelled one step per section, not per record; Fortran-style independent writer records are not covered."),
+ "C20": dict(cat="model_checking", ref="3 (C20)", technique="TLA+ state transformer Convert.tla (flavour data, MOP digits, generator list and lookup as separate variables, short/history requests) and WaiweraExport.tla (rock-cell partition, source cells, EOS recognition) model-checked by TLC; every TLC transition / state replayed on real t2data objects (method calls and the type setter, then a file round trip; json() export)",
+   text="TLC checks on Convert that after each conversion the model declares its flavour, holds nothing of the other flavour, has no unsupported generator in the list or the lookup (which describe the same generators) and that requests only move between SHORT and the history sections; on WaiweraExport that rock cell lists partition the non-boundary blocks, sources sit at their blocks' cell indices and the EOS is recognised from argument, MULTI or simulator string. Each exported transition is replayed on a real model (convert_to_TOUGH2/AUTOUGH2 or the type setter, MP on/off), the clauses evaluated on the real object, grid/rocks/remaining generators/requests compared, and the converted model written and re-read; export cases are built on rectangular geometries with all atmosphere types and block orders.",
+   note="Exact MOP digit rewriting and conductivity scaling are compared with the spec as drift only; group (TMAK) generators are not instantiated; boundary blocks are adjacent to a cell."),
 }
 REASONS_PENDING = "check not built yet in this revision (see DESIGN.md section 6 build order); the specification family applies"
 NA = {
